@@ -5,6 +5,7 @@ import ecanon
 import eunits
 import eraw
 import esort
+import eskip
 
 LEVEL = "E-UNITS"
 CRATES = ("oxidd_core", "oxidd_manager_index", "oxidd_manager_pointer", "oxidd_reorder", "oxidd_rules_bdd",
@@ -43,5 +44,10 @@ def run(ctx):
     ctx.explain("E-PERM: the level-permutation step of set_var_order moves whole levels (with their stale numbers relabelled "
                 "afterwards); its loop invariant keeps populated levels from crossing without node restructuring.")
     esort.run(ctx, F)
+    ctx.explain("E-PERM.relabel: the parallel relabelling pass visits the levels whose nodes carry a stale number (work list "
+                "built from level positions): otherwise nodes keep a stored level that disagrees with the table they sit in. "
+                "E-TABLE.skip: level_swap splits children below the lower level with the kind's skipped-level cofactors.")
+    esort.check_relabel_worklist(ctx, F)
+    eskip.run(ctx, F)
     ctx.not_decided = ("uniqueness/reducedness of the stored graph after arbitrary histories; minimal node counts; "
                        "the then-edge regularity of complement-edge nodes (planned tag-lattice rule)")
